@@ -68,7 +68,19 @@ func sha1hex(s string) string {
 }
 
 // scripts: deterministic, terminating, no small expiries.
+// scriptMixedReserved: tables that mix the reserved members err / ok with
+// other keys or with an array part (only a table whose single entry is err /
+// ok is an error / status reply), at top level and nested.
+var scriptMixedReserved = []string{
+	"return {err='boom', code=5}", "local t={10,20} t.err='boom' return t", "return {ok='fine', extra=1}", "return {1,2,ok='x'}",
+	"return {err='e', ok='o'}", "return {a={err='inner', n=1}}", "return {{err='e', x=1}, 2}", "return {err={1,2}, n=1}",
+	"return {err='only'}", "return {{err='nested only'}}", "return {res={ok='nested ok'}, err2='x'}", "local t={'a'} t.ok='b' return t",
+	// (a list table with two or more keyed members is left out: they follow the array part in hash order,
+	// which differs from one execution to the next in both modes)
+}
+
 var scriptPool = []string{
+	"return {err='boom', code=5}", "local t={10,20} t.err='boom' return t", "return {1,2,ok='x'}",
 	"return 1", "return 1.5", "return -7.5", "return 'str'", "return KEYS[1]", "return ARGV[1]",
 	"return {1,2,3}", "return {KEYS[1], ARGV[1]}", "return {a=1}", "return {a='x', b={1,2}}",
 	"return nil", "return true", "return false", "return {}", "return {1,'a',{2,'b'}}", "return {true,false}",
@@ -677,6 +689,7 @@ func (g *G) validShape(name string) (args []arg, ok bool) {
 		if g.evalNonFinite {
 			pool = append(append([]string{}, pool...), scriptNonFinite...)
 		}
+		pool = append(append([]string{}, pool...), scriptMixedReserved...)
 		if g.oddKeys {
 			pool = append(append([]string{}, pool...), scriptOddKeys...)
 		}
